@@ -10,8 +10,11 @@ import (
 	jsoniter "github.com/json-iterator/go"
 )
 
-// Do not use jsoniter.ConfigFastest here: it marshals floats with 6 digits only, which silently changes job variables
-var json = jsoniter.ConfigCompatibleWithStandardLibrary
+// The store has its own JSON configuration (with the settings of the standard library):
+//   - jsoniter.ConfigFastest marshals floats with 6 digits only, which silently changes job variables
+//   - jsoniter.ConfigCompatibleWithStandardLibrary is one shared object: the server package registers its time format for the
+//     API on it (RFC3339, seconds only), which would also cut the persisted timestamps down to seconds
+var json = jsoniter.Config{EscapeHTML: true, SortMapKeys: true, ValidateJsonRawMessage: true}.Froze()
 
 type PersistedJob struct {
 	ID       uuid.UUID
